@@ -28,9 +28,15 @@ SOURCES = {
     "wasmable": "export function f(float a, float b, int c) -> int\n{\n  return (a < b) + c * 2 + (a > b);\n}\nexport function h(int a) -> int\n{\n  return a * 64 - 3;\n}\n",
     "imp": "import \"std\";\nexport function f(float a, float b) -> float\n{\n  return dot(float4(a, b, a, b));\n}\n",
     "loop": "int total;\nexport function f(int n) -> int\n{\n  for (int i = 0; i < n; ++i)\n  {\n    if (i % 2 == 0)\n    {\n      continue;\n    }\n    total += i;\n  }\n  return total;\n}\n",
+    # private (name-mangled) functions with long parameter lists; called, and wasm-able
+    "private3": "function lerp(float a, float b, float t) -> float\n{\n  return a + (b - a) * t;\n}\nfunction pick(int a, int b, int c, int d, int e) -> int\n{\n  return a + b * c - d + e;\n}\n"
+                "export function f(float a, float b) -> float\n{\n  return lerp(a, b, 0.5) + pick(1, 2, 3, 4, 5);\n}\n",
+    # one source declares globals whose names another source uses as a parameter and as a local
+    "globals_lb": "int level;\nint bias;\nexport function f(int a) -> int\n{\n  level = a;\n  bias = a * 2;\n  return level + bias;\n}\n",
+    "params_lb": "export function f(int level, int n) -> int\n{\n  int bias = n * 2;\n  bias += level;\n  return level + bias;\n}\n",
 }
 REQUESTS = [(n, {}) for n in SOURCES] + [(n, {"optimize": True}) for n in ("plain", "struct_a", "struct_b", "loop", "imp")] + \
-    [("wasmable", {"wasm": True}), ("plain", {"wasm": True}), ("wasmable", {"wasm": True, "optimize": True})]
+    [("wasmable", {"wasm": True}), ("plain", {"wasm": True}), ("wasmable", {"wasm": True, "optimize": True}), ("private3", {"wasm": True})]
 
 
 def replay(job):
